@@ -1,10 +1,144 @@
-//! Command-line level of C14: drive the `chess pvp` binary built from /repo over stdin.
+//! Command-line level of C14: drive the `chess pvp` binary built from /repo over stdin and
+//! judge what it prints (DESIGN 4/C14, "CLI protocol").
 
 use super::*;
+use crate::bridge::*;
 use serde_json::json;
+use std::io::{BufRead, BufReader, Write};
+use std::process::{Child, Command, Stdio};
+use std::sync::mpsc::{channel, Receiver};
+use std::time::Duration;
 
-pub fn c14_cli(ctx: &Ctx, _o: &Opts) {
+struct Pvp { child: Child, rx: Receiver<String>, stdin: std::process::ChildStdin }
+
+#[derive(Debug)]
+struct Block { messages: Vec<String>, turn: Option<Col>, board: Option<[Option<(Col, Pc)>; 64]>, ended: bool }
+
+fn glyph(c: char) -> Option<Option<(Col, Pc)>> {
+    Some(match c {
+        '.' => None,
+        '♟' => Some((Col::W, Pc::P)), '♞' => Some((Col::W, Pc::N)), '♝' => Some((Col::W, Pc::B)), '♜' => Some((Col::W, Pc::R)), '♛' => Some((Col::W, Pc::Q)), '♚' => Some((Col::W, Pc::K)),
+        '♙' => Some((Col::B, Pc::P)), '♘' => Some((Col::B, Pc::N)), '♗' => Some((Col::B, Pc::B)), '♖' => Some((Col::B, Pc::R)), '♕' => Some((Col::B, Pc::Q)), '♔' => Some((Col::B, Pc::K)),
+        _ => return None,
+    })
+}
+
+impl Pvp {
+    fn start(bin: &str) -> Result<Pvp, String> {
+        let mut child = Command::new(bin).arg("pvp").stdin(Stdio::piped()).stdout(Stdio::piped()).stderr(Stdio::null()).spawn().map_err(|e| e.to_string())?;
+        let out = child.stdout.take().ok_or("no stdout")?;
+        let stdin = child.stdin.take().ok_or("no stdin")?;
+        let (tx, rx) = channel();
+        std::thread::spawn(move || { for line in BufReader::new(out).lines() { match line { Ok(l) => { if tx.send(l).is_err() { break; } } Err(_) => break } } });
+        Ok(Pvp { child, rx, stdin })
+    }
+    /// Read until a complete `turn:` + 8 board lines block (or the end of the game / a timeout).
+    fn read_block(&mut self) -> Result<Block, String> {
+        let mut b = Block { messages: vec![], turn: None, board: None, ended: false };
+        let mut rows: Vec<String> = vec![];
+        loop {
+            let line = match self.rx.recv_timeout(Duration::from_secs(20)) { Ok(l) => l, Err(_) => { if b.ended { return Ok(b); } return Err("timeout waiting for the program's output".into()); } };
+            if b.turn.is_some() && rows.len() < 8 {
+                rows.push(line);
+                if rows.len() == 8 {
+                    let mut sq = [None; 64];
+                    for (i, row) in rows.iter().enumerate() {
+                        let chars: Vec<char> = row.chars().collect();
+                        if chars.len() != 8 { return Err(format!("board row {:?} is not 8 cells", row)); }
+                        for (f, ch) in chars.iter().enumerate() { sq[(7 - i) * 8 + f] = glyph(*ch).ok_or(format!("unknown cell {:?}", ch))?; }
+                    }
+                    b.board = Some(sq);
+                    // a finished game prints its verdict right after the board
+                    if let Ok(extra) = self.rx.recv_timeout(Duration::from_millis(150)) { if extra.ends_with('!') { b.ended = true; b.messages.push(extra); } else { b.messages.push(extra); } }
+                    return Ok(b);
+                }
+                continue;
+            }
+            if let Some(t) = line.strip_prefix("turn: ") { b.turn = Some(if t.trim() == "white" { Col::W } else { Col::B }); continue; }
+            if line.ends_with('!') && (line.contains("mate") || line.contains("draw")) { b.ended = true; }
+            b.messages.push(line);
+        }
+    }
+    fn send(&mut self, s: &str) -> Result<(), String> { writeln!(self.stdin, "{}", s).map_err(|e| e.to_string())?; self.stdin.flush().map_err(|e| e.to_string()) }
+    fn stop(mut self) { let _ = self.child.kill(); let _ = self.child.wait(); }
+}
+
+fn run_script(ctx: &Ctx, bin: &str, moves: &[Mv], label: &str, rng: &mut Rng) {
+    let root = Pos::start();
+    let mut pvp = match Pvp::start(bin) { Ok(p) => p, Err(e) => { ctx.inconclusive(&format!("cannot start {} pvp: {}", bin, e)); return; } };
+    let mut p = root.clone();
+    let mut typed: Vec<String> = vec![];
+    let fail = |ctx: &Ctx, sig: &str, what: String, typed: &Vec<String>| ctx.violation(sig, &what, json!({"cli": "chess pvp", "script": label, "typed_so_far": typed}));
+    let mut blk = match pvp.read_block() { Ok(b) => b, Err(e) => { ctx.inconclusive(&format!("pvp: {}", e)); pvp.stop(); return; } };
+    for (i, m) in moves.iter().enumerate() {
+        // what is printed must be the position the rules give
+        if blk.board != Some(p.sq) || blk.turn != Some(p.turn) { fail(ctx, "c14:cli-position-differs", format!("{}: after typing {:?} the program shows a position (turn {:?}) that differs from the rules' {}", label, typed, blk.turn, p.to_fen()), &typed); break; }
+        ctx.count("cli_positions_compared", 1);
+        let legal = p.legal_moves();
+        // a few inputs that must be refused and must change nothing
+        if i % 3 == 0 {
+            let junk: Vec<String> = vec!["e9".into(), format!("{}{}", sq_name(rng.below(64) as u8), sq_name(rng.below(64) as u8)), "Nz3".into(), "O-O-O-O".into(), "Qh9#".into()];
+            for j in junk.iter().take(2) {
+                let is_legal_pair = legal.iter().any(|x| format!("{}{}", sq_name(x.from), sq_name(x.to)) == *j);
+                if is_legal_pair { continue; }
+                if pvp.send(j).is_err() { break; }
+                typed.push(j.clone());
+                match pvp.read_block() {
+                    Ok(b2) => { ctx.count("cli_refusals_checked", 1); if b2.board != Some(p.sq) || b2.turn != Some(p.turn) { fail(ctx, "c14:cli-refused-input-has-an-effect", format!("{}: input {:?} names no legal move in {} but the printed position changed", label, j, p.to_fen()), &typed); } blk = b2; }
+                    Err(e) => { ctx.inconclusive(&format!("pvp: {}", e)); pvp.stop(); return; }
+                }
+            }
+        }
+        // type the move: standard label (every label the engine prints for a legal move must be typable), sometimes coordinates
+        let san = p.san(m, &legal);
+        let is_promo = matches!(m.kind, Kind::Promo(_) | Kind::PromoCapture(_));
+        let text = if i % 4 == 3 && !is_promo { format!("{}{}", sq_name(m.from), sq_name(m.to)) } else { san.clone() };
+        if pvp.send(&text).is_err() { ctx.inconclusive("pvp: stdin closed"); break; }
+        typed.push(text.clone());
+        let n = p.make(m);
+        match pvp.read_block() {
+            Ok(b2) => {
+                ctx.count("cli_moves_typed", 1);
+                if matches!(m.kind, Kind::CastleK | Kind::CastleQ) && (san.ends_with('+') || san.ends_with('#')) { ctx.count("cli_castling_with_check_typed", 1); }
+                if b2.board != Some(n.sq) || (b2.turn != Some(n.turn) && !b2.ended) {
+                    let msg = b2.messages.join(" | ");
+                    let sig = if b2.board == Some(p.sq) { if msg.contains("invalid input") { "c14:cli-refuses-standard-input-as-invalid" } else { "c14:cli-rejects-legal-move" } } else { "c14:cli-plays-a-different-move" };
+                    fail(ctx, sig, format!("{}: typed {:?} (move {} of {}) in {}; expected the position {} but the program answered [{}]", label, text, i + 1, moves.len(), p.to_fen(), n.to_fen(), msg), &typed);
+                    pvp.stop(); return;
+                }
+                blk = b2;
+            }
+            Err(e) => { ctx.inconclusive(&format!("pvp: {}", e)); pvp.stop(); return; }
+        }
+        p = n;
+        if blk.ended { break; }
+    }
+    ctx.count("cli_games_played", 1);
+    ctx.distinct(hash_bytes(typed.join(" ").as_bytes()));
+    pvp.stop();
+}
+
+pub fn c14_cli(ctx: &Ctx, o: &Opts) {
     let bin = match std::env::var("VERIF_CLI_BIN") { Ok(b) => b, Err(_) => { ctx.note("VERIF_CLI_BIN not set: command-line level skipped"); return; } };
-    let _ = (bin, json!({}));
-    ctx.note("command-line driver not built yet");
+    let mut rng = Rng::new(o.seed).fork(tag("c14-cli"));
+    let root = Pos::start();
+    let scripts: Vec<(&str, Vec<&str>)> = vec![
+        ("king-side castling with check", vec!["f2f4", "e7e5", "f4e5", "e8e7", "e2e4", "e7e6", "f1c4", "e6e5", "g1h3", "e5f6", "e1g1"]),
+        ("queen-side castling with check", vec!["d2d4", "e7e5", "d4e5", "e8e7", "c1g5", "e7e6", "b1c3", "e6e5", "d1d3", "e5d6", "d3e4", "d6d7", "e4f4", "d7d6", "e1c1"]),
+        ("scholar's mate", vec!["e2e4", "e7e5", "f1c4", "b8c6", "d1h5", "g8f6", "h5f7"]),
+        ("en passant and promotion", vec!["e2e4", "a7a5", "e4e5", "d7d5", "e5d6", "a5a4", "d6c7", "a4a3", "c7b8q"]),
+    ];
+    for (label, ucis) in &scripts {
+        match parse_path(&root, &ucis.iter().map(|s| s.to_string()).collect::<Vec<_>>()) {
+            Ok(path) => run_script(ctx, &bin, &path, label, &mut rng),
+            Err(e) => { ctx.note(&format!("script {:?} skipped (not legal by the reference rules: {})", label, e)); }
+        }
+    }
+    let games = if ctx.quick() { 4 } else { 30 };
+    for g in 0..games {
+        if ctx.out_of_budget() { break; }
+        let policy = gen::POLICIES[g % gen::POLICIES.len()];
+        let path = gen::random_game(&root, &mut rng, policy, 70);
+        run_script(ctx, &bin, &path, "seeded random game", &mut rng);
+    }
 }
